@@ -59,16 +59,16 @@ func checkC07(w *World, r *Report) {
 	r.Decides = "C07 is decided in its structural part only: (a) in the restore loader every decoded record that carries a pair is appended to the pending batch before the next read or the next proposal, the batch is cleared only after it was marshalled, every success return is preceded by a proposal after the last append, a failed proposal returns its error, and the proposal sends the marshalled batch; (b) the table image is read from one Pebble snapshot: the state machine hands NewSnapshot() to the dump, which reads index and pairs from that one reader; (c) the leader stream appends a terminator carrying the dump's index after the dump and before the file is synced, rewound and copied out, and the loader forwards the record's leader index into the batch it proposes and clears it only after marshalling; (d) the dump writes a pair exactly when its key is a user key and every user pair of the unfiltered iterator reaches the writer; (e) Restore switches the catalogue to the freshly numbered shard only after the load succeeded; (f) the backup client opens the restore stream only on the checksum-equal edge, with the hash reset and fed the whole file per table, and records the checksum of the bytes it wrote."
 	r.NotDecided = []string{"equality of restored and captured contents at value level", "interplay of chunk sizes and buffer sizes (framing is C18)", "that nothing of the old content survives beyond the directory switch (C14.c)"}
 	r.Assume = []string{"io.Reader contract of the snapshot file (one record per Read)", "Pebble snapshots are point-in-time"}
-	c07Loader(w, r)
+	c07Loader(w, r, "C07.a", "a-no-record-lost")
 	c07PointInTime(w, r)
-	c07Terminator(w, r)
+	c07Terminator(w, r, "C07.c", "c-index-travels")
 	c07UserPairs(w, r)
 	c07Switch(w, r, "C07.e", "e-switch-after-load")
 	c07Checksum(w, r)
 }
 
-func c07Loader(w *World, r *Report) {
-	ob := r.Ob("C07.a", "a-no-record-lost", "restore loader: from the success edge of the record decode, the next Read and the batch marshal are unreachable without crossing append(batch, record.Kv) except over the edge record.Kv == nil; the batch slice is truncated only after MarshalVT of the batch; from the last append no success return is reachable without a proposal; the retry helper's error edge returns; the proposed bytes are the marshalled batch", "a record that is decoded but not appended is silently missing from the restored table (the record on each batch threshold; every record when the in-memory log size is 0)")
+func c07Loader(w *World, r *Report, id, slug string) {
+	ob := r.Ob(id, slug, "restore loader: from the success edge of the record decode, the next Read and the batch marshal are unreachable without crossing append(batch, record.Kv) except over the edge record.Kv == nil; the batch slice is truncated only after MarshalVT of the batch; from the last append no success return is reachable without a proposal; the retry helper's error edge returns; the proposed bytes are the marshalled batch", "a record that is decoded but not appended is silently missing from the restored table (the record on each batch threshold; every record when the in-memory log size is 0)")
 	fn := w.Func("storage/table", "Manager.readIntoTable")
 	if fn == nil {
 		// fallback by role: Manager method that calls io.Reader.Read and proposes in one loop
@@ -302,8 +302,8 @@ func c07PointInTime(w *World, r *Report) {
 	ob.NeedFloor(3)
 }
 
-func c07Terminator(w *World, r *Report) {
-	ob := r.Ob("C07.c", "c-index-travels", "leader snapshot stream: every path to the copy-out crosses the write of a Command whose LeaderIndex points at the dump response's Index, after the dump; no path leads from the sync/seek/copy back to that write; loader: between decode and marshal the batch's LeaderIndex is stored from the record's LeaderIndex and is cleared only after the marshal", "without the terminator (or with it forwarded wrongly) the follower records no or a wrong leader index for the restored content and re-applies or skips log entries")
+func c07Terminator(w *World, r *Report, id, slug string) {
+	ob := r.Ob(id, slug, "leader snapshot stream: every path to the copy-out crosses the write of a Command whose LeaderIndex points at the dump response's Index, after the dump; no path leads from the sync/seek/copy back to that write; loader: between decode and marshal the batch's LeaderIndex is stored from the record's LeaderIndex and is cleared only after the marshal", "without the terminator (or with it forwarded wrongly) the follower records no or a wrong leader index for the restored content and re-applies or skips log entries")
 	st := w.Func("regattaserver", "SnapshotServer.Stream")
 	if st == nil {
 		ob.Undecided("anchor/Stream", "SnapshotServer.Stream not found")
